@@ -131,7 +131,8 @@ theorem sameClose_settle (c : Conn) (tag : String) (sid : Nat) (err : Option Err
   · exact sameClose_finish _ _ _ _
 
 theorem sameClose_dispatch (c : Conn) (f : Frame.Frame) : SameClose c (dispatch c f).1 := by
-  rw [dispatch_eq]
+  obtain ⟨skd, skb, ske, hsk⟩ := skipHeaders_shape c f
+  rw [dispatch_eq, hsk]
   split
   · exact ⟨rfl, rfl⟩
   · split
@@ -239,7 +240,8 @@ theorem getReq_settle_other (c : Conn) (tag : String) (sid : Nat) (err : Option 
 /-- `dispatch` changes no request but the one registered under the frame's stream -/
 theorem getReq_dispatch_other (c : Conn) (f : Frame.Frame) (t : String) (h : lookupA c.reqQueued f.stream ≠ some t) :
     getReq (dispatch c f).1 t = getReq c t := by
-  rw [dispatch_eq]
+  obtain ⟨skd, skb, ske, hsk⟩ := skipHeaders_shape c f
+  rw [dispatch_eq, hsk]
   split
   · rfl
   · rename_i tag hl
@@ -254,7 +256,8 @@ theorem getReq_dispatch_other (c : Conn) (f : Frame.Frame) (t : String) (h : loo
         rw [e]; rfl
 
 theorem dispatch_sub (c : Conn) (f : Frame.Frame) : (dispatch c f).1.reqQueued.Sublist c.reqQueued := by
-  rw [dispatch_eq]
+  obtain ⟨skd, skb, ske, hsk⟩ := skipHeaders_shape c f
+  rw [dispatch_eq, hsk]
   split
   · exact List.Sublist.refl _
   · split
